@@ -19,6 +19,10 @@ CLAIMED = {
          'deterministic simulation: seeded scheduler; scripted peer / harness HTTP backend replying with permuted, short, duplicated, foreign and mixed batch replies; positional oracle shared by both clients',
          'Seeded search over batch sizes 1-6, several batches and calls in flight, both id kinds, reply shapes (permutation / subset / duplicate / foreign id / two batches mixed) for the async (WebSocket-style) client and the HttpClient; every returned entry must be attributable to a reply element with exactly that id, list length and counters must match the request. Sampling, not enumeration.',
          'A task poll is atomic; HttpClient runs above a tower layer that stands in for the hyper connection pool.'),
+ 'C18': ('exploration', 'clisim', 'DESIGN.md §8 C18',
+         'deterministic simulation: seeded histories of client operation cycles with acknowledgements in drawn order and seeded schedules; table-size invariant read through hook H5 at quiescence',
+         'Seeded search over histories of {call, batch, notification, subscribe accepted/refused/malformed/duplicate id, unsubscribe, drop, server-side close, lag-closure, notification-handler register/unregister/lag} run by 1-3 concurrent front-end tasks against a peer that acknowledges everything in drawn order; once the simulator reports quiescence all four internal tables must be empty and a later message bearing an identifier of finished work must leave no state. Sampling, not enumeration.',
+         'A task poll is atomic; table sizes come from hook H5 (weak handle); scripted peer.'),
  'C03': ('exploration', 'clisim', 'DESIGN.md §8 C03',
          'deterministic simulation: seeded task-gate scheduler + scripted adversarial peer, payload-nonce attribution oracle',
          'Seeded search over schedules of the real async client (front-end futures vs. send/read/shutdown tasks) and over answer orders/duplications of a scripted peer; every completion is attributed through unique nonces to the response carrying the id that request put on the wire. Sampling, not enumeration.',
